@@ -359,8 +359,8 @@ class isoparser(object):
         while pos < len_str and comp < 5:
             comp += 1
 
-            if timestr[pos:pos + 1] in b'-+Zz':
-                # Detect time zone boundary
+            if comp > 0 and timestr[pos:pos + 1] in b'-+Zz':
+                # Detect time zone boundary (a time starts with the hour)
                 components[-1] = self._parse_tzstr(timestr[pos:])
                 pos = len_str
                 break
